@@ -1,9 +1,12 @@
 #!/bin/sh
-# build the extracted model runner: .cache/extract/vrun_core.ml(i) + runner/main.ml -> .cache/vrun
+# build the extracted model runner of one unit:
+#   .cache/extract/<unit>/vrun_core.ml(i) + runner/main.ml -> .cache/vrun_<unit>
 set -e
-cd /verif/.cache/extract
+u="$1"
+cd /verif/.cache/extract/$u
 cp /verif/runner/main.ml .
-if [ ! -x ../vrun ] || [ vrun_core.ml -nt ../vrun ] || [ main.ml -nt ../vrun ]; then
-  ocamlfind ocamlopt -w -a -o ../vrun.new vrun_core.mli vrun_core.ml main.ml
-  mv ../vrun.new ../vrun
+if [ ! -x ../../vrun_$u ] || [ vrun_core.ml -nt ../../vrun_$u ] || [ main.ml -nt ../../vrun_$u ]; then
+  ocamlfind ocamlopt -w -a -O2 -o ../../vrun_$u.new vrun_core.mli vrun_core.ml main.ml 2>/dev/null || \
+  ocamlfind ocamlopt -w -a -o ../../vrun_$u.new vrun_core.mli vrun_core.ml main.ml
+  mv ../../vrun_$u.new ../../vrun_$u
 fi
